@@ -68,7 +68,8 @@ def run_case(rec, case):
         rec.viol(key, msg + ' | limit=%d length=%d %s declared=%s path=%s '
                  'server=%s' % (M, L, 'binary' if binary else 'text', decl,
                                 path, srv), case)
-    sim = scen.make_sim(srv, server_kwargs={'max_http_buffer_size': M},
+    sim = scen.make_sim(srv, real_ws_driver=(L + M) % 2 == 1,
+                        server_kwargs={'max_http_buffer_size': M},
                         body_chunks=case.get('chunks', 1))
     try:
         _run(rec, sim, case, M, L, binary, decl, path, srv, V)
